@@ -51,6 +51,12 @@ struct StoreState {
     put_returns: usize,
     shard_bytes_ok: usize,
     validation_errors: Vec<String>,
+    /// global dedup service: every chunk listed in a CAS section of a successfully uploaded shard -> that shard
+    chunk_to_shard: BTreeMap<RH, RH>,
+    shard_bytes: BTreeMap<RH, Vec<u8>>,
+    /// where the service drops the shard it answers with (the current session's shard cache), if enabled
+    dedup_dir: Option<PathBuf>,
+    global_dedup_answers: usize,
 }
 
 #[derive(Clone)]
@@ -157,6 +163,13 @@ impl VerifRegistrationClient for Store {
                 g.files.insert(rm::from_mh(&fi.metadata.file_hash), fi);
             }
             g.shard_bytes_ok += shard_data.len();
+            let sh = rm::from_mh(_hash);
+            for (_, chunks) in &view.cas {
+                for (ch, _) in chunks {
+                    g.chunk_to_shard.insert(*ch, sh);
+                }
+            }
+            g.shard_bytes.insert(sh, shard_data.to_vec());
         }
         drop(g);
         self.bump();
@@ -176,8 +189,18 @@ impl FileReconstructor<CasClientError> for Store {
 }
 #[async_trait]
 impl VerifShardDedupProber for Store {
-    async fn query_for_global_dedup_shard(&self, _prefix: &str, _chunk_hash: &MerkleHash, _salt: &[u8; 32]) -> Result<Option<PathBuf>, CasClientError> {
-        Ok(None)
+    async fn query_for_global_dedup_shard(&self, _prefix: &str, chunk_hash: &MerkleHash, _salt: &[u8; 32]) -> Result<Option<PathBuf>, CasClientError> {
+        let mut g = self.st.lock().unwrap();
+        let Some(dir) = g.dedup_dir.clone() else { return Ok(None) };
+        let Some(sh) = g.chunk_to_shard.get(&rm::from_mh(chunk_hash)).copied() else { return Ok(None) };
+        let bytes = g.shard_bytes.get(&sh).cloned().unwrap_or_default();
+        g.global_dedup_answers += 1;
+        drop(g);
+        // like the local test server: drop the shard into the caller's shard cache and name it
+        let path = dir.join(format!("{}.mdb", rm::hex(&sh)));
+        std::fs::create_dir_all(&dir)?;
+        std::fs::write(&path, bytes)?;
+        Ok(Some(path))
     }
 }
 #[async_trait]
@@ -217,6 +240,7 @@ struct ExecObs {
     /// store counters when the explored (last) session began
     base_put_returns: usize,
     base_shard_bytes: usize,
+    global_dedup_answers: usize,
 }
 
 #[derive(Clone)]
@@ -264,6 +288,15 @@ fn execute(atoms: &Atoms, scn: &Scenario, cas: &std::path::Path, prefix: &[usize
             .run_until(async move {
                 for (si, spec) in scn.sessions.iter().enumerate() {
                     let explore = si + 1 == nsess;
+                    // "inject-gd": the explored session runs against the same store but with a FRESH local shard
+                    // cache, so its first dedup pass misses and the global-dedup second pass does the work
+                    let cas_gd = cas.join("second-client");
+                    let cas: &std::path::Path = if explore && scn.family == "inject-gd" {
+                        store2.st.lock().unwrap().dedup_dir = Some(shard_cache_dir(&cas_gd));
+                        &cas_gd
+                    } else {
+                        cas
+                    };
                     let r = std::panic::AssertUnwindSafe(run_session(atoms, spec, cas, pool.clone(), &store2, explore, scn.family == "inject-conc", prefix, budget, obs_ref)).catch_unwind().await;
                     if let Err(p) = r {
                         obs_ref.panic = Some(format!("{} @ {}", vcore::util::panic_text(&p), vcore::util::last_panic_loc()));
@@ -281,6 +314,7 @@ fn execute(atoms: &Atoms, scn: &Scenario, cas: &std::path::Path, prefix: &[usize
     obs.put_returns = g.put_returns - obs.base_put_returns;
     obs.shard_bytes_ok = g.shard_bytes_ok - obs.base_shard_bytes;
     obs.validation_errors = g.validation_errors.clone();
+    obs.global_dedup_answers = g.global_dedup_answers;
     // reconstruction from the store when everything reported success
     if obs.all_api_ok && obs.finalized {
         for (name, content) in file_contents(atoms, scn) {
@@ -649,6 +683,14 @@ fn scenarios(tier: Tier) -> Vec<Scenario> {
     let conc = |files: Vec<FileSpec>| Scenario { family: "inject-conc".into(), sessions: vec![SessionSpec::seq(files)] };
     v.push(conc(vec![f(&[0, 1, 2], 0), f(&[3, 4, 5], 0)]));
     v.push(conc(vec![f(&[0, 1], 0), f(&[0, 1], 0)]));
+    // global dedup: second session on a fresh local shard cache against the same store
+    let gd = |s1: Vec<FileSpec>, s2: Vec<FileSpec>| Scenario { family: "inject-gd".into(), sessions: vec![SessionSpec::seq(s1), SessionSpec::seq(s2)] };
+    v.push(gd(vec![f(&[0, 1, 2, 3], 0)], vec![f(&[0, 1, 2, 3], 0)]));
+    v.push(gd(vec![f(&[0, 1, 2, 3], 0)], vec![f(&[0, 1, 4, 2, 3], 0)]));
+    if tier == Tier::Thorough {
+        v.push(gd(vec![f(&[0, 1], 0), f(&[2, 3, 4], 0)], vec![f(&[2, 3, 4, 0, 1], 2)]));
+        v.push(gd(vec![f(&[0, 1, 2, 3, 4, 5], 0)], vec![f(&[5, 0], 0), f(&[0, 1, 2, 6], 0)]));
+    }
     if tier == Tier::Thorough {
         v.push(conc(vec![f(&[0], 0), f(&[1], 2), f(&[2, 3, 4], 0)]));
         v.push(conc(vec![f(&[0, 1, 2, 3], 0), f(&[4], 0)]));
@@ -752,6 +794,12 @@ fn explore_scenario(atoms: &Atoms, cfg: &Cfg, scn: &Scenario, budget: usize, scr
         }
         if obs.all_api_ok && obs.finalized {
             out.count("vac:successful_sessions_reconstructed", 1);
+        }
+        if obs.global_dedup_answers > 0 {
+            out.count("vac:executions_with_global_dedup_answers", 1);
+            if obs.metrics.map(|m| m.deduped_bytes_by_global_dedup > 0).unwrap_or(false) {
+                out.count("vac:executions_deduped_by_global_dedup", 1);
+            }
         }
         if n % 97 == 1 {
             out.sample(json!({"cfg": cfg.name, "scenario": scn.label(), "outcome": o}));
